@@ -9,8 +9,12 @@
 //	    top-level declaration of every .wuffs file in the tree (std, hello-wuffs-c);
 //	(c) every short byte string over all 256 values and over a 12-byte alphabet,
 //	    and nesting / size probes n = 10..10^5 (a few deeper);
-//	(d) a family of small accepted programs (progs.go) through the freshly
-//	    built `wuffs-c gen` and `gcc -fsyntax-only`.
+//	(d) families of small accepted programs (progs.go, families.go: a signature
+//	    x body grid, loop labels and jumps, status strings, names that the
+//	    generated C also uses, field sections x field types, return types)
+//	    through the freshly built `wuffs-c gen` and `gcc -fsyntax-only`
+//	    (rungen.go); an accepted program for which no C is emitted is a
+//	    violation too.
 //
 // Oracle: token.Tokenize, parse.Parse, render.Render, check.Check (and wuffs-c
 // gen) return a value or an ordinary error: no panic (recover), no fatal exit
@@ -402,8 +406,8 @@ func main() {
 		return
 	}
 	if len(os.Args) > 3 && os.Args[1] == "progs" {
-		for i, s := range progSpecs(os.Args[2] == "thorough") {
-			os.WriteFile(filepath.Join(os.Args[3], pkgName(i)+".wuffs"), []byte("// "+s.describe()+"\n"+s.text()), 0o644)
+		for i, s := range buildCands(os.Args[2] == "thorough") {
+			os.WriteFile(filepath.Join(os.Args[3], pkgName(i)+".wuffs"), []byte("// "+s.desc+"\n"+s.text()), 0o644)
 		}
 		return
 	}
@@ -637,7 +641,11 @@ func main() {
 	r.Add("programs_generated", pg.generated)
 	r.Add("programs_accepted", pg.accepted)
 	r.Add("programs_c_generated", pg.genOK)
-	r.Add("programs_gen_ordinary_error", pg.genErr)
+	r.Add("programs_gen_error_no_c_emitted", pg.genErr)
+	r.Add("programs_gen_crashed", pg.genCrash)
+	r.Add("program_packs", pg.packs)
+	r.Add("programs_rerun_singly", pg.singleReruns)
+	r.Add("pack_attribution_disagreements", pg.packDisagreements)
 	r.Add("programs_gcc_accepted", pg.gccOK)
 	r.Add("programs_gcc_rejected", pg.gccBad)
 	r.Add("gcc_runs", pg.gccRuns)
